@@ -8,7 +8,7 @@
     function of exactly these components) every later answer to anyone and every
     later stored state is then identical too. *)
 From MW Require Import Base Store Monad Usage Server Websocket Service Findings Inv Obs
-     ProtoFacts NpFactsA MbFactsA MbFactsB DupFacts Inst_Params DupFactsLater DupFactsFresh.
+     ProtoFacts NpFactsA MbFactsA MbFactsB DupFacts Inst_Params DupFactsLater DupFactsFresh DupRun.
 Local Open Scope list_scope.
 
 (** a claim answered `claimed` leaves behind what its duplicate needs ... *)
@@ -138,3 +138,105 @@ Example C14_close_restamps_refuted :
   map mb_updated (mailboxes (chan_w s)) = [0] /\ map mb_updated (mailboxes (chan_w s2)) = [8] /\
   mb_sides (chan_w s2) = mb_sides (chan_w s) /\ subs s2 = subs s.
 Proof. vm_compute. repeat split; reflexivity. Qed.
+
+(** * the whole remaining history (quoted by type from DupRun.v).  [same_channel]: two states that agree on everything
+    but the usage databases; [obs_same]: equal log skeletons (frames, stamps, commits, channel snapshots), validity and
+    exception; [dup_invisible s c' a side cmd o h] = the run of [h] and the run of [dup_events ... ++ h] agree from the
+    fifth observation on.  NO hypothesis on the continuation [h]: commands of anyone, sweeps, restarts, crashes at any commit. *)
+
+(** behaviour is a function of everything but the usage databases, over any history with any crashes *)
+Theorem C14_run_same_channel : ltac:(let t := type of run_same_channel in exact t).
+Proof. exact run_same_channel. Qed.
+Check C14_run_same_channel.
+Print Assumptions C14_run_same_channel.
+
+(** a four-event segment that leaves the channel-relevant state as it was is invisible for every continuation: same views, timers, frames, stamps, exceptions, commits, boot frames *)
+Theorem C14_dup_invisible_run : ltac:(let t := type of dup_invisible_run in exact t).
+Proof. exact dup_invisible_run. Qed.
+Check C14_dup_invisible_run.
+Print Assumptions C14_dup_invisible_run.
+
+(** the re-sent claim: every later answer to anyone and the stored channel state are those of the history without it *)
+Theorem C14_claim_dup_run : ltac:(let t := type of claim_dup_run in exact t).
+Proof. exact claim_dup_run. Qed.
+Check C14_claim_dup_run.
+Print Assumptions C14_claim_dup_run.
+
+(** the re-sent release *)
+Theorem C14_release_dup_run : ltac:(let t := type of release_dup_run in exact t).
+Proof. exact release_dup_run. Qed.
+Check C14_release_dup_run.
+Print Assumptions C14_release_dup_run.
+
+(** the re-sent open *)
+Theorem C14_open_dup_run : ltac:(let t := type of open_dup_run in exact t).
+Proof. exact open_dup_run. Qed.
+Check C14_open_dup_run.
+Print Assumptions C14_open_dup_run.
+
+(** the re-sent close -- when the mailbox is gone or its stamp is the current instant (otherwise KF4) *)
+Theorem C14_close_dup_run : ltac:(let t := type of close_dup_run in exact t).
+Proof. exact close_dup_run. Qed.
+Check C14_close_dup_run.
+Print Assumptions C14_close_dup_run.
+
+(** end to end from any reachable state: the original command establishes the hypotheses, the duplicate is invisible *)
+Theorem C14_claim_resend_invisible : ltac:(let t := type of claim_resend_invisible in exact t).
+Proof. exact claim_resend_invisible. Qed.
+Check C14_claim_resend_invisible.
+Print Assumptions C14_claim_resend_invisible.
+
+(** (release) *)
+Theorem C14_release_resend_invisible : ltac:(let t := type of release_resend_invisible in exact t).
+Proof. exact release_resend_invisible. Qed.
+Check C14_release_resend_invisible.
+Print Assumptions C14_release_resend_invisible.
+
+(** (open) *)
+Theorem C14_open_resend_invisible : ltac:(let t := type of open_resend_invisible in exact t).
+Proof. exact open_resend_invisible. Qed.
+Check C14_open_resend_invisible.
+Print Assumptions C14_open_resend_invisible.
+
+(** (close) *)
+Theorem C14_close_resend_invisible : ltac:(let t := type of close_resend_invisible in exact t).
+Proof. exact close_resend_invisible. Qed.
+Check C14_close_resend_invisible.
+Print Assumptions C14_close_resend_invisible.
+
+(** KF4 over a continuation: without the stamp hypothesis a later open is answered differently (the mailbox expires one sweep later) *)
+Theorem C14_close_dup_run_restamp_refuted : ltac:(let t := type of close_dup_run_restamp_refuted in exact t).
+Proof. exact close_dup_run_restamp_refuted. Qed.
+Check C14_close_dup_run_restamp_refuted.
+Print Assumptions C14_close_dup_run_restamp_refuted.
+
+(** the duplicate must NAME its nameplate / mailbox: a nameless release on a connection that has not claimed is a protocol error (C17) and changes nothing *)
+Theorem C14_nameless_release_error : ltac:(let t := type of nameless_release_error in exact t).
+Proof. exact nameless_release_error. Qed.
+Check C14_nameless_release_error.
+Print Assumptions C14_nameless_release_error.
+
+(** (close) *)
+Theorem C14_nameless_close_error : ltac:(let t := type of nameless_close_error in exact t).
+Proof. exact nameless_close_error. Qed.
+Check C14_nameless_close_error.
+Print Assumptions C14_nameless_close_error.
+
+(** ... so the verbatim duplicate of a nameless release is answered `error` where the original was answered `released` (declared limit, DESIGN I.9) *)
+Theorem C14_release_dup_implicit_refuted : ltac:(let t := type of release_dup_implicit_refuted in exact t).
+Proof. exact release_dup_implicit_refuted. Qed.
+Check C14_release_dup_implicit_refuted.
+Print Assumptions C14_release_dup_implicit_refuted.
+
+(** (close) *)
+Theorem C14_close_dup_implicit_refuted : ltac:(let t := type of close_dup_implicit_refuted in exact t).
+Proof. exact close_dup_implicit_refuted. Qed.
+Check C14_close_dup_implicit_refuted.
+Print Assumptions C14_close_dup_implicit_refuted.
+
+(** non-vacuity: continuation with a crash inside a claim, a restart, a crash before an event and a timer firing *)
+Theorem C14_claim_dup_run_nonvacuous : ltac:(let t := type of claim_dup_run_nonvacuous in exact t).
+Proof. exact claim_dup_run_nonvacuous. Qed.
+Check C14_claim_dup_run_nonvacuous.
+Print Assumptions C14_claim_dup_run_nonvacuous.
+
